@@ -188,9 +188,16 @@ class Unit:
     def log_result(self, **kw):
         self.results.append(kw)
 
+    def past_deadline(self):
+        d = self.opts.get("deadline")
+        return d is not None and time.time() > d
+
     def check_variant(self, label, src, p, sched_descr, notes):
         """compile, build, run, compare one procedure; appends result records"""
         rng = self.rng
+        if self.past_deadline():
+            self.log_result(status="deadline", variant=label, schedule=sched_descr, annotations=notes)
+            return
         ir = p._loopir_proc
         base = {"variant": label, "schedule": sched_descr, "annotations": notes}
         t_ = time.time()
@@ -265,8 +272,8 @@ class Unit:
             rc, out, cmd = CM.cc_build(cfile, exe, opt)
             self.tick("gcc", t_)
             if rc != 0:
-                self.log_result(status="cbuild-failed", detail=out[-1500:], tags=sorted(tags), cmd=cmd,
-                                replay=dict(replay0, cc=cmd, cc_output=out[-1500:]), **base)
+                self.log_result(status="cbuild-failed", detail=out[:3000], tags=sorted(tags), cmd=cmd,
+                                replay=dict(replay0, cc=cmd, cc_output=out[:3000]), **base)
                 return
             n_ok = 0
             for k, (d, ref) in enumerate(zip(descs, refs)):
@@ -304,6 +311,8 @@ class Unit:
     def run(self):
         t0 = time.time()
         rng = self.rng
+        if self.past_deadline():
+            return {"uid": self.uid, "seed": self.seed, "status": "deadline", "results": [], "src": ""}
         src = self.opts.get("source")
         if src is None:
             g = G.C02Gen(random.Random(rng.randrange(1 << 30)), uid="c%d" % self.uid, features=self.opts.get("features"))
@@ -334,7 +343,7 @@ class Unit:
             else:
                 base_notes = []
             for v in range(self.opts.get("n_sched", 1)):
-                if time.time() - t0 > self.opts.get("unit_budget", 60):
+                if time.time() - t0 > self.opts.get("unit_budget", 60) or self.past_deadline():
                     break
                 t_ = time.time()
                 q, applied = G.schedule(p, random.Random(rng.randrange(1 << 30)), cfgs, rng.randint(1, 3))
@@ -387,3 +396,249 @@ def run_units(jobs, workers=12, deadline=None):
                     g.cancel()
                 break
     return [out[k] for k in sorted(out)]
+
+
+# ---------------------------------------------------------------------------------------------- corpus
+# Hand-written seed programs, run before the generated ones on every run.  Each exercises one clause of the property
+# text with values chosen so that a wrong lowering shows (distinct cell values, negative dividends, non-unit strides).
+CORPUS = {
+    # regression witness of the defect repaired in /repo: two windows of one source name after inline; the strides of
+    # the renamed one were read from the other (comp_cir printed the Sym's source name)
+    "stride_of_renamed_window": '''
+@proc
+def sub(dst: [R][4, 3], src: [R][4]):
+    w = dst[0:4, 1]
+    for i in seq(0, 4):
+        src[i] = w[i]
+
+@proc
+def foo(x: R[8], y: R[4, 3]):
+    w = x[0:4]
+    sub(y[0:4, 0:3], w)
+    x[7] = w[1]
+
+foo = inline(foo, "sub(_, _)")
+''',
+    "divmod_negative": '''
+@config
+class CfgD:
+    a: index
+
+@proc
+def pick(s: R, k: index, src: [R][4]):
+    assert k >= 0
+    assert k < 4
+    s += src[k]
+
+@proc
+def foo(n: size, kk: index, x: R[8], y: [R][n, 4], sc: R):
+    assert kk >= -6
+    for i in seq(0, 8):
+        x[(i - 3) % 8] += 1.0
+        x[(i - 5) / 2 % 8] += 2.0
+        if (i - 5) / 2 < -1:
+            x[i] += 4.0
+        if (i - 6) % 3 == 1:
+            x[i] += 8.0
+        pick(sc, (i - 7) % 4, y[0, 0:4])
+        pick(sc, (i + kk - 9) / 3 % 4, y[n - 1, 0:4])
+    for j in seq(0, n):
+        y[j, (kk - 7) / 3 % 4] = 3.0
+        y[j, (j - kk - 2) % 4] += 5.0
+    CfgD.a = (kk - 7) / 2 % 5
+    x[7 / 2] += 16.0
+    x[(0 - 7) / 2 % 8] += 32.0
+''',
+    "windows_mix": '''
+@proc
+def rev2(n: size, dst: [R][n], src: [R][n]):
+    for i in seq(0, n):
+        dst[i] += 2.0 * src[n - 1 - i]
+
+@proc
+def foo(n: size, a: [R][n, 6], b: R[6, n], c: R[3, 4, 5], sc: R):
+    for i in seq(0, n):
+        w = a[i, 1:5]
+        w2 = w[1:3]
+        w2[1] = b[2, i] + w[0]
+    col = b[1:5, 0]
+    c2 = col[1:3]
+    c2[0] = 7.0
+    c2[1] += col[3]
+    rev2(n, a[0:n, 2], b[3, 0:n])
+    rev2(4, c[1, 0:4, 2], a[0, 2:6])
+    p = c[0:3, 1:3, 2:5]
+    q = p[1, 0:2, 1:3]
+    q[1, 0] = 9.0
+    r = q[0:2, 1]
+    r[0] = q[1, 0] + 1.0
+    sc = r[1] + c[2, 3, 4]
+''',
+    "scalars_by_reference": '''
+@proc
+def inner(s: R, k: index, src: [R][4]):
+    assert k >= 0
+    assert k < 4
+    s += src[k]
+
+@proc
+def mid(s: R, src: [R][4]):
+    inner(s, 1, src)
+    t: R
+    t = 2.0
+    inner(t, 3, src)
+    s += t
+
+@proc
+def foo(x: R[4], sc: R, y: R[2]):
+    mid(sc, x[0:4])
+    u: R
+    u = 1.0
+    mid(u, x)
+    y[0] = u
+    sc += x[2]
+    for i in seq(0, 2):
+        u = sc
+        y[i] += u
+''',
+    "config_state": '''
+@config
+class CfgS:
+    a: index
+    flag: bool
+    scale: f32
+
+@proc
+def setit(k: index, x: [R][4]):
+    assert k >= 0
+    assert k < 4
+    CfgS.a = 2
+    CfgS.scale = 3.0
+    x[k] = CfgS.scale
+
+@proc
+def foo(x: R[4], y: R[4]):
+    if CfgS.flag:
+        y[3] = CfgS.scale
+    if CfgS.a == 1:
+        y[2] = 5.0
+    setit(2, x[0:4])
+    if CfgS.a == 2:
+        y[0] = 1.0
+        CfgS.flag = False
+    else:
+        CfgS.flag = True
+    for i in seq(0, 4):
+        y[i] += CfgS.scale
+    CfgS.scale = 4.0
+''',
+    "precision_casts": '''
+@proc
+def foo(n: size, x: f64[n, 2], y: f32[n], z: i32[4], sc: f64, w: [f32][4]):
+    for i in seq(0, n):
+        x[i, 0] = y[i] + 1.0
+        x[i, 1] += y[n - 1 - i] * 2.0
+    for j in seq(0, 4):
+        z[j] = w[j] * 3.0
+        w[j] = z[3 - j]
+    sc = y[0]
+    t: f64
+    t = sc * 2.0
+    y[0] = t
+    sc += z[1]
+''',
+    "memories": '''
+@proc
+def addto(n: size, dst: [R][n], src: [R][n]):
+    for i in seq(0, n):
+        dst[i] += src[i]
+
+@proc
+def foo(n: size, x: R[4, 6], y: R[6]):
+    a: R[4, 6] @ DRAM_STACK
+    b: R[6] @ DRAM_STATIC
+    for i in seq(0, 4):
+        for j in seq(0, 6):
+            a[i, j] = x[i, j] + 1.0
+    for j in seq(0, 6):
+        b[j] = y[j]
+    for i in seq(0, 4):
+        c: R[2, 3] @ DRAM_STACK
+        for p in seq(0, 2):
+            for q in seq(0, 3):
+                c[p, q] = a[i, 3 * p + q]
+        addto(3, b[1:4], c[1, 0:3])
+        addto(4, x[0:4, i], a[0:4, 5 - i])
+    for j in seq(0, 6):
+        y[j] = b[j]
+''',
+    "shadowed_names": '''
+@proc
+def sub(x: [R][4], y: [R][4]):
+    t: R
+    t = y[1]
+    for i in seq(0, 4):
+        x[i] += t
+        t += 1.0
+
+@proc
+def foo(x: R[4], y: R[4], z: R[8]):
+    t: R
+    t = 3.0
+    for i in seq(0, 2):
+        for i in seq(1, 4):
+            z[i] += 1.0
+        z[i + 4] += t
+        t: R[2]
+        t[0] = y[i]
+        t[1] = 2.0
+        z[i + 6] = t[0] + t[1]
+    sub(x[0:4], y[0:4])
+    for i in seq(0, 4):
+        t: R
+        t = z[i]
+        x[i] += t
+    z[0] = t
+
+foo = inline(foo, "sub(_, _)")
+''',
+    "reduce_and_loops": '''
+@proc
+def foo(n: size, m: size, x: R[n, m], y: [R][m], acc: R):
+    assert n >= 2
+    for i in seq(1, n):
+        for j in seq(0, m):
+            y[j] += x[i, j] * x[i - 1, j]
+            acc += y[j]
+    for k in seq(2, 2):
+        acc = 0.0
+    for i in par(0, n):
+        for j in seq(0, m):
+            x[i, j] = x[i, j] + 1.0
+    if n > 2:
+        acc += x[2, 0]
+    else:
+        acc += x[1, m - 1]
+''',
+    "instr_calls": '''
+@instr("for (int q_ = 0; q_ < {n}; q_++) (&{dst_data})[q_ * {dst}.strides[0]] += 2.0f * {src}.data[({n} - 1 - q_) * {src}.strides[0]];")
+def ins_rev2(n: size, dst: [R][n], src: [R][n]):
+    for i in seq(0, n):
+        dst[i] += 2.0 * src[n - 1 - i]
+
+@instr("*{s_data} = {src}.data[{k} * {src}.strides[0]] + 1.0f;")
+def ins_pick(s: R, k: index, src: [R][4]):
+    assert k >= 0
+    assert k < 4
+    s = src[k] + 1.0
+
+@proc
+def foo(n: size, a: [R][n, 6], b: R[6, n], c: R[8], sc: R):
+    ins_rev2(n, a[0:n, 2], b[3, 0:n])
+    ins_rev2(4, a[n - 1, 1:5], c[2:6])
+    t: R
+    ins_pick(t, 2, b[1:5, 0])
+    ins_pick(sc, (n - 7) % 4, a[0, 0:4])
+    sc += t
+''',
+}
